@@ -669,6 +669,18 @@ def mon_abandon(ops, lines):
         x = next(i for i, o in enumerate(ops) if o.startswith("XC "))
     except StopIteration:
         return None
+    # the topic's subscriptions that existed throughout hold the same messages (nothing was acknowledged): after an
+    # abandoned Publish either all of them got the message or none
+    held = {}
+    for i in range(x + 1, len(ops)):
+        ot, rt = ops[i].split(" "), lines[i].split(" ")
+        if ot[0] == "STATS" and rt[1:2] == ["0"] and unhx(ot[1]).endswith((b"/s", b"/twin")):
+            held[ot[1]] = int(rt[2]) + int(rt[3])
+        elif ot[0] in ("PUB", "ADV", "PULL", "DS", "CT"):
+            break
+    if ops[x].split(" ")[1] in ("PUB", "PUBS") and len(held) == 2 and len(set(held.values())) > 1:
+        return ("C16-partial-fanout: after the abandoned Publish the topic's two subscriptions hold %s messages - the "
+                "message reached one and not the other" % " and ".join(str(v) for v in held.values()))
     found = {}
     for i in range(x + 1, len(ops)):
         ot, rt = ops[i].split(" "), lines[i].split(" ")
